@@ -54,6 +54,7 @@ type c03Step struct {
 	// Init
 	Seg  int      `json:"seg"`  // WAL segment size in pages (0 = default)
 	Bigs []string `json:"bigs"` // series whose label set is bigger than a WAL page
+	Snap bool     `json:"snap"` // run with EnableMemorySnapshotOnShutdown
 	// Crash
 	Site  string   `json:"site"`
 	Hit   int      `json:"hit"`
@@ -112,8 +113,9 @@ func c03Options(c cdbConc, init c03Step) *tsdb.Options {
 
 func c03Conc(seed int64, init c03Step) cdbConc {
 	c := cdbMakeConc(seed, init.R, false)
-	// EnableMemorySnapshotOnShutdown for seed%5 == 3 (dbMakeConc). The snapshot itself is opaque to Crash.tla: its
-	// sites inside Head.Close are removed from the trace before the comparison (c03DropSnapshot), the kills inside it stay.
+	// EnableMemorySnapshotOnShutdown for every other workload. The snapshot itself is opaque to Crash.tla: its sites
+	// inside Head.Close are removed from the trace before the comparison (c03DropSnapshot), the kills inside it stay.
+	c.Snapshot = seed%2 == 1 || init.Snap
 	c.STStorage = false
 	return c
 }
@@ -932,6 +934,26 @@ func c03JudgeDirX(w []c03Step, seed int64, dir string, ackedOp int, what string,
 	// same timestamps as recovered + the new samples; values within what was written (a timestamp written twice with
 	// different values may legitimately show either)
 	if a, b := c03FmtTs(got2), c03FmtTs(want); a != b {
+		// only samples that an acknowledged Delete removed earlier came back, nothing is missing: the known way of a
+		// deletion to be undone by a (second) restart once its block has been dropped (KF-C03-3, gated by the caller)
+		onlyDeletedBack := true
+		for n, m := range want {
+			for t := range m {
+				if _, ok := got2[n][t]; !ok {
+					onlyDeletedBack = false
+				}
+			}
+		}
+		for n, m := range got2 {
+			for t, x := range m {
+				if _, ok := want[n][t]; !ok && !c03WasCommitted(conc, w, ackedOp, n, x) {
+					onlyDeletedBack = false
+				}
+			}
+		}
+		if onlyDeletedBack {
+			return "deleted-sample-replayed-from-wal", fmt.Sprintf("%s: after appending (t=%d) to the recovered database and a clean restart samples deleted by an acknowledged Delete are back:\n  %s\nexpected\n  %s", what, newT, c03Fmt(got2), c03Fmt(want)), got
+		}
 		return "post-recovery-contents-changed", fmt.Sprintf("%s: after appending (t=%d) to the recovered database and a clean restart the contents are\n  %s\nexpected\n  %s", what, newT, c03Fmt(got2), c03Fmt(want)), got
 	}
 	for _, g2 := range []c03Contents{got2, got2C} {
